@@ -1,4 +1,7 @@
-pub(crate) struct Pretty;
+#[derive(Default)]
+pub(crate) struct Pretty {
+    in_value: bool,
+}
 
 impl crate::visit_mut::VisitMut for Pretty {
     fn visit_document_mut(&mut self, node: &mut crate::DocumentMut) {
@@ -6,7 +9,11 @@ impl crate::visit_mut::VisitMut for Pretty {
     }
 
     fn visit_item_mut(&mut self, node: &mut crate::Item) {
-        node.make_item();
+        // Only items of (array of) tables can become standard tables; what is nested inside a value
+        // (an inline table within an array) has to stay inline
+        if !self.in_value {
+            node.make_item();
+        }
 
         crate::visit_mut::visit_item_mut(self, node);
     }
@@ -25,7 +32,9 @@ impl crate::visit_mut::VisitMut for Pretty {
     fn visit_value_mut(&mut self, node: &mut crate::Value) {
         node.decor_mut().clear();
 
+        let was_in_value = std::mem::replace(&mut self.in_value, true);
         crate::visit_mut::visit_value_mut(self, node);
+        self.in_value = was_in_value;
     }
 
     fn visit_array_mut(&mut self, node: &mut crate::Array) {
